@@ -8,6 +8,7 @@
 use std::{
     fmt,
     hash::Hash,
+    mem::ManuallyDrop,
     ops,
     sync::{Arc, PoisonError, TryLockError, TryLockResult, Weak},
 };
@@ -39,7 +40,10 @@ pub struct SharedObservable<T, L: Lock = SyncLock> {
     state: Arc<L::RwLock<ObservableState<T>>>,
     /// Ugly hack to track the amount of clones of this observable,
     /// *excluding subscribers*.
-    _num_clones: Arc<()>,
+    ///
+    /// Released in `Drop` through `Arc::into_inner`, so that exactly one of
+    /// several concurrently dropped clones observes being the last one.
+    _num_clones: ManuallyDrop<Arc<()>>,
 }
 
 impl<T> SharedObservable<T> {
@@ -336,7 +340,7 @@ impl<T: Send + Sync + 'static> SharedObservable<T, AsyncLock> {
 
 impl<T, L: Lock> SharedObservable<T, L> {
     pub(crate) fn from_inner(state: Arc<L::RwLock<ObservableState<T>>>) -> Self {
-        Self { state, _num_clones: Arc::new(()) }
+        Self { state, _num_clones: ManuallyDrop::new(Arc::new(())) }
     }
 
     /// Get the number of `SharedObservable` clones.
@@ -428,9 +432,16 @@ impl<T, L: Lock> Drop for SharedObservable<T, L> {
     fn drop(&mut self) {
         #[cfg(feature = "__verif")]
         crate::verif_hooks::point("sdrop:enter");
+        // SAFETY: `_num_clones` is not used again after this, `self` is being
+        // dropped.
+        let num_clones = unsafe { ManuallyDrop::take(&mut self._num_clones) };
+
         // Only close the state if there are no other clones of this
-        // `SharedObservable`.
-        if Arc::strong_count(&self._num_clones) == 1 {
+        // `SharedObservable`. Checking the count and releasing our reference
+        // must be one atomic step (which `Arc::into_inner` guarantees),
+        // otherwise two clones dropped at the same time on different threads
+        // could both see the other one and neither would close the state.
+        if Arc::into_inner(num_clones).is_some() {
             // If there are no other clones, obtaining a read lock can't fail.
             L::read_noblock(&self.state).close();
         }
@@ -459,7 +470,7 @@ impl<T, L: Lock> WeakObservable<T, L> {
         let state = Weak::upgrade(&self.state)?;
         #[cfg(feature = "__verif")]
         crate::verif_hooks::point("upgrade:between");
-        let _num_clones = Weak::upgrade(&self._num_clones)?;
+        let _num_clones = ManuallyDrop::new(Weak::upgrade(&self._num_clones)?);
         Some(SharedObservable { state, _num_clones })
     }
 }
